@@ -63,6 +63,9 @@ func c14Exec(c *engine.Ctx, cs c14Case) {
 	l := cs.Layout
 	u := math.Ldexp(1, -52)
 	scale := scaleOf(cs.Rings)
+	// the geometries handed over carry an SRID in about half of the cases (longitude/latitude,
+	// web mercator): centroids are those of the coordinates as plain numbers whatever it says
+	srid := []int{0, 4326, 0, 3857}[(len(cs.Rings)+len(cs.Rings[0])/2)%4]
 	fail := func(what, desc string) {
 		c.Violate(cs.Mode+"/"+what, clipStr(fmt.Sprintf("%s; layout %v counts %v input %v", desc, l, cs.Counts, cs.Rings), 2500), "c14", cs)
 	}
@@ -89,10 +92,10 @@ func c14Exec(c *engine.Ctx, cs c14Case) {
 		var g1, g2, g3 geom.Coord
 		if pn, _ := engine.Guard(func() {
 			g1 = xy.PointsCentroidFlat(l, flat)
-			g2 = xy.MultiPointCentroid(geom.NewMultiPointFlat(l, flat))
+			g2 = xy.MultiPointCentroid(geom.NewMultiPointFlat(l, flat).SetSRID(srid))
 			var ps []*geom.Point
 			for i := 0; i < len(pts); i++ {
-				ps = append(ps, geom.NewPointFlat(l, flat[i*l.Stride():(i+1)*l.Stride()]))
+				ps = append(ps, geom.NewPointFlat(l, flat[i*l.Stride():(i+1)*l.Stride()]).SetSRID(srid))
 			}
 			g3 = xy.PointsCentroid(ps[0], ps[1:]...)
 		}); pn != nil {
@@ -130,17 +133,17 @@ func c14Exec(c *engine.Ctx, cs c14Case) {
 		var ends []int
 		for i, r := range cs.Rings {
 			f := flatOf(r, l, float64(i))
-			lines = append(lines, geom.NewLineStringFlat(l, f))
+			lines = append(lines, geom.NewLineStringFlat(l, f).SetSRID(srid))
 			endsFlat = append(endsFlat, f...)
 			ends = append(ends, len(endsFlat))
 		}
 		var g1, g2, g3 geom.Coord
 		if pn, _ := engine.Guard(func() {
 			g1 = xy.LinesCentroid(lines[0], lines[1:]...)
-			g2 = xy.MultiLineCentroid(geom.NewMultiLineStringFlat(l, endsFlat, ends))
+			g2 = xy.MultiLineCentroid(geom.NewMultiLineStringFlat(l, endsFlat, ends).SetSRID(srid))
 			var rings []*geom.LinearRing
 			for _, ln := range lines {
-				rings = append(rings, geom.NewLinearRingFlat(l, ln.FlatCoords()))
+				rings = append(rings, geom.NewLinearRingFlat(l, ln.FlatCoords()).SetSRID(srid))
 			}
 			g3 = xy.LinearRingsCentroid(rings[0], rings[1:]...)
 		}); pn != nil {
@@ -213,7 +216,7 @@ func c14Exec(c *engine.Ctx, cs c14Case) {
 				mpFlat = append(mpFlat, f...)
 				mpEnds = append(mpEnds, len(mpFlat))
 			}
-			polys = append(polys, geom.NewPolygonFlat(l, flat, ends))
+			polys = append(polys, geom.NewPolygonFlat(l, flat, ends).SetSRID(srid))
 			endss = append(endss, mpEnds)
 		}
 		var wx, wy *big.Float
@@ -247,11 +250,11 @@ func c14Exec(c *engine.Ctx, cs c14Case) {
 		var err error
 		if pn, stack := engine.Guard(func() {
 			g1 = xy.PolygonsCentroid(polys[0], polys[1:]...)
-			g2 = xy.MultiPolygonCentroid(geom.NewMultiPolygonFlat(l, mpFlat, endss))
+			g2 = xy.MultiPolygonCentroid(geom.NewMultiPolygonFlat(l, mpFlat, endss).SetSRID(srid))
 			if len(polys) == 1 {
 				g3, err = xy.Centroid(polys[0])
 			} else {
-				g3, err = xy.Centroid(geom.NewMultiPolygonFlat(l, mpFlat, endss))
+				g3, err = xy.Centroid(geom.NewMultiPolygonFlat(l, mpFlat, endss).SetSRID(srid))
 			}
 		}); pn != nil {
 			fail("panic", fmt.Sprintf("panic %v\n%s", pn, firstLines(stack, 10)))
